@@ -138,3 +138,21 @@ S("C19", "P1 guard removed", "R2", (D, "                if len(self._buffer) + l
 S("C19", "escape after escape re-arms without growing the frame", "R2", (H, "            if self._unescape_next:\n                self._unescape_next = False\n                unescaped = current ^ 0x20\n                self._frame.append(unescaped)\n            else:\n                if current == HdlcFrameReader.CONTROL_ESCAPE:\n                    self._unescape_next = True\n                else:\n                    self._frame.append(current)",
     "            if current == HdlcFrameReader.CONTROL_ESCAPE:\n                self._unescape_next = True\n            elif self._unescape_next:\n                self._unescape_next = False\n                self._frame.append(current ^ 0x20)\n            else:\n                self._frame.append(current)"))
 N("C19", "exit trim via trim-to-flag when hunting", (H, "        # release consumed bytes\n        self._buffer.trim_buffer_to_current_position()\n", "        if self._frame is None:\n            self._buffer.trim_buffer_to_flag_or_end()\n        else:\n            self._buffer.trim_buffer_to_current_position()\n"))
+
+# ------------------------------------------------------------------------------------------------ C20
+OB = "obis"
+S("C20", "pinned defect: doubled accumulator in the B branch", "R4", (OB, 'obis_code += f"{self._groups[1]}:"', 'obis_code += obis_code + f"{self._groups[1]}:"'))
+S("C20", "__hash__ over a different tuple", "R3", (OB, "return hash(self._groups)", "return hash(self._groups[2:5])"))
+S("C20", "to_group_cdr_str omits E", "R3", (OB, 'return f"{self._groups[2]}.{self._groups[3]}.{self._groups[4]}"', 'return f"{self._groups[2]}.{self._groups[3]}"'))
+S("C20", "AR/BR swapped in the group() call", "R1", (OB, 'obis = match.group("AR", "BR", "CR", "DR", "ER", "FR")', 'obis = match.group("BR", "AR", "CR", "DR", "ER", "FR")'))
+S("C20", "F converted unconditionally", "R1", (OB, "                int(obis[4]) if obis[4] else None,\n                int(obis[5]) if obis[5] else None,\n            )\n\n        if match.group(\"STANDARD\")",
+                                             "                int(obis[4]) if obis[4] else None,\n                int(obis[5]),\n            )\n\n        if match.group(\"STANDARD\")"))
+S("C20", "D converted conditionally", "R2", (OB, "                int(obis[2]),\n                int(obis[3]),\n                int(obis[4]) if obis[4] else None,\n                int(obis[5]) if obis[5] else None,",
+                                           "                int(obis[2]),\n                int(obis[3]) if obis[3] else None,\n                int(obis[4]) if obis[4] else None,\n                int(obis[5]) if obis[5] else None,"))
+S("C20", "E separator ':' in the pattern", "R1", (OB, r"(\.(?P<ER>\d{0,3}))?", r"(:(?P<ER>\d{0,3}))?"))
+S("C20", "eq compares strings", "R3", (OB, "        if isinstance(other, Obis):\n            return self._groups == other._groups", "        if isinstance(other, Obis):\n            return str(self) == str(other)"))
+S("C20", "*F only emitted together with E", "R4", (OB, '            obis_code += f".{self._groups[4]}"\n        if self._groups[5]:\n            obis_code += f"*{self._groups[5]}"', '            obis_code += f".{self._groups[4]}"\n            if self._groups[5]:\n                obis_code += f"*{self._groups[5]}"'))
+S("C20", "eq swallows nothing (no ValueError handler)", "R3", (OB, "        except ValueError:\n            return False", "        except KeyError:\n            return False"))
+N("C20", "tuple built through a local list", (OB, "            obis = match.group(\"AS\", \"BS\", \"CS\", \"DS\", \"ES\", \"FS\")\n            return (\n                int(obis[0]),", "            obis = match.group(\"AS\", \"BS\", \"CS\", \"DS\", \"ES\", \"FS\")\n            return (\n                int(match.group(\"AS\")),"))
+N("C20", "reduced string built with str()+concatenation", (OB, '            obis_code += f"{self._groups[0]}-"', '            obis_code += str(self._groups[0]) + "-"'))
+N("C20", "eq operand order", (OB, "            return self._groups == other._groups", "            return other._groups == self._groups"))
